@@ -112,6 +112,10 @@ def shard(arg):
             v = check(ws, {"op": "green.other_thread"}, out, case, True, ["other_thread"])
             if v:
                 out.violation(v[0]["desc"], case, "3.12")
+            case = {"exited_thread": True}
+            v = check(ws, {"op": "green.exited_thread"}, out, case, True, ["greenlets_of_an_exited_thread"])
+            if v:
+                out.violation(v[0]["desc"], case, "3.12")
         if not out.violations:
             fail = hyp_search(chains(), lambda ir: check(ws, {"op": "green.chain", "ir": ir}, out, ir, len(ir["chain"]) >= 2,
                                                          ["chain", "chain.len.%d" % len(ir["chain"])] +
@@ -145,6 +149,8 @@ def replay(ctx, data):
         elif "greenback_depth" in case:
             req = {"op": "green.greenback", "depth": case["greenback_depth"], "spawn": case.get("spawn", 0),
                    "awaitable": case.get("awaitable", 0), "portal": case.get("portal", "ensure")}
+        elif "exited_thread" in case:
+            req = {"op": "green.exited_thread"}
         elif "other_thread" in case:
             req = {"op": "green.other_thread"}
         else:
